@@ -1,6 +1,6 @@
 (* C05 — resuming from a checkpoint equals never having stopped.  Property theorems only. *)
 From Coq Require Import List ZArith Bool Arith.
-From BlackIt Require Import Model.Calibrator Proofs.CalibratorP Proofs.CalibStopP Proofs.CalibFaultP.
+From BlackIt Require Import Model.Calibrator Proofs.CalibratorP Proofs.CalibStopP Proofs.CalibFaultP Proofs.CalibResumeP.
 Import ListNotations.
 
 (* Splitting over several calibrate() calls on a live object. *)
@@ -51,3 +51,35 @@ Theorem C05_calibrate_disk_irrelevant :
                 (mkSt _ _ _ (live _ _ _ s1) d1', e, r).
 Proof. exact calibrate_disk_irrelevant. Qed.
 Print Assumptions C05_calibrate_disk_irrelevant.
+
+(* Round 4.  After a checkpoint + restore, ANY further sequence of operations that does not read the folder again
+   (calibrate with or without a convergence precision, calibrate(0), set_samplers, set_scheduler, create_checkpoint)
+   leaves the live calibrator in the state it reaches on the object that was never stopped, and every one of these calls
+   raises / returns the same: restore followed by reconfiguration, early stop followed by a further calibrate(). *)
+Theorem C05_resume_any_ops :
+  forall Param Series LossV model lossf loss_leb rounds0 propose draws agent_actions plan
+         (s s1 s2 : cstate Param Series LossV) e1 e2 l b ops,
+    sch _ _ _ (live _ _ _ s) = RR LossV l b ->
+    create_checkpoint Param Series LossV s = (s1, e1) -> restore Param Series LossV s1 = (s2, e2) ->
+    forallb restore_free ops = true ->
+    live _ _ _ (run Param Series LossV model lossf loss_leb rounds0 propose draws agent_actions plan ops s2) =
+    live _ _ _ (run Param Series LossV model lossf loss_leb rounds0 propose draws agent_actions plan ops s).
+Proof. exact resume_any_ops. Qed.
+Print Assumptions C05_resume_any_ops.
+
+Theorem C05_resume_any_ops_outcomes :
+  forall Param Series LossV model lossf loss_leb rounds0 propose draws agent_actions plan
+         ops o (s s1 s2 : cstate Param Series LossV) e1 e2 l b,
+    sch _ _ _ (live _ _ _ s) = RR LossV l b ->
+    create_checkpoint Param Series LossV s = (s1, e1) -> restore Param Series LossV s1 = (s2, e2) ->
+    forallb restore_free (ops ++ [o]) = true ->
+    snd (fst (step Param Series LossV model lossf loss_leb rounds0 propose draws agent_actions plan
+                (run Param Series LossV model lossf loss_leb rounds0 propose draws agent_actions plan ops s2) o)) =
+    snd (fst (step Param Series LossV model lossf loss_leb rounds0 propose draws agent_actions plan
+                (run Param Series LossV model lossf loss_leb rounds0 propose draws agent_actions plan ops s) o)) /\
+    snd (step Param Series LossV model lossf loss_leb rounds0 propose draws agent_actions plan
+           (run Param Series LossV model lossf loss_leb rounds0 propose draws agent_actions plan ops s2) o) =
+    snd (step Param Series LossV model lossf loss_leb rounds0 propose draws agent_actions plan
+           (run Param Series LossV model lossf loss_leb rounds0 propose draws agent_actions plan ops s) o).
+Proof. exact resume_any_ops_outcomes. Qed.
+Print Assumptions C05_resume_any_ops_outcomes.
